@@ -36,10 +36,12 @@ All randomness comes from the `rng` passed in (a Hypothesis `st.randoms` object)
 
 import collections
 
-# An aggregating expression inside order_by(..) / limit(..) makes the Python parser raise
-# KeyError('operator') (the denotation's argument dicts are shared between the rule and
-# the generated @OrderBy annotation and rewritten twice) while the C++ parser accepts:
-# finding D12 of C06; excluded by construction while open.
+# An aggregating expression inside order_by(..) / limit(..) of a rule WITHOUT a body
+# (`P(1) order_by(Max{x})`) makes the Python parser raise KeyError('operator'): the
+# denotation's argument dicts are shared between the rule and the generated @OrderBy
+# annotation (only rules with a body are deep-copied by the DNF rewrite) and
+# AggergationsAsExpressions rewrites them twice; the C++ parser accepts.
+# Finding D12 of C06; excluded by construction while open.
 AVOID_DEN_AGG = True
 
 # `Max{y}` is accepted but `Max{ y }`, `Max{y\n}` and `Max{(y)}` are rejected by both
@@ -415,7 +417,27 @@ class Gen(object):
             return self.is_in_expr(d, operand or noeq)
         if k == 22:
             return self.call(d)
-        return self.atom(d)
+        return self.chain(noeq, operand)
+
+    def chain(self, noeq=False, operand=False):
+        """`a op b op c [op d]` over atoms without any parentheses: the tree is decided
+        by the parsers' operator order and associativity alone."""
+        self.feat('operator_chain')
+        # operators from a window of three neighbours in the priority list, so that
+        # pairs whose relative order matters meet often
+        ops = [o for o in BIN_OPS if not (noeq and ('=' in o or o in ('&&', '||')))]
+        i = self.r.randrange(len(ops) - 2)
+        ops = ops[i:i + 3]
+        n = self.pick([2, 2, 3])
+        out = [self.E(self.expr(self.max_depth, operand=True))]
+        for _ in range(n):
+            op = self.pick(ops)
+            self.feat('op:' + op)
+            out += [self.T(op, 'op', pre=' ')] + \
+                self.sp([self.E(self.expr(self.max_depth, operand=True))])
+        if operand and self.r.randrange(3) == 0:
+            return self.parens(out)
+        return [('N', out)]
 
     def E(self, items):
         """operand position: parenthesisable unless it is a bare operator expression
@@ -437,7 +459,9 @@ class Gen(object):
         if compact:
             self.feat('compact_operator')
         pre = '' if compact else ' '
-        out = [self.E(left), self.T(op, 'op', pre=pre)] + self.sp([self.E(right)], pre)
+        # `y+(x)` would be a call of `y+`: no parentheses right after a compact operator
+        rgt = list(right) if compact else [self.E(right)]
+        out = [self.E(left), self.T(op, 'op', pre=pre)] + self.sp(rgt, pre)
         need = force or (noeq and ('=' in op or op in ('&&', '||'))) or \
             (operand and self.r.randrange(10) in (1, 3, 5, 7))
         if need:
@@ -676,7 +700,7 @@ class Gen(object):
         return self.call(d)
 
     # ------------------------------------------------------------ statements
-    def denotations(self, must_distinct):
+    def denotations(self, must_distinct, has_body=True):
         out = []
         if must_distinct or self.p(0.25):
             self.feat('distinct')
@@ -697,8 +721,8 @@ class Gen(object):
                     e = self.binary(2)
                 elif k == 6:
                     e = self.call(2, FUNCS)
-                elif AVOID_DEN_AGG:
-                    self.excluded['D12_aggregation_in_denotation'] += 1
+                elif AVOID_DEN_AGG and not has_body:
+                    self.excluded['D12_aggregation_in_denotation_of_fact'] += 1
                     e = [self.T(self.var(), 'var')]
                 else:
                     e = self.ultra_combine(2)
@@ -719,7 +743,7 @@ class Gen(object):
             out.append(self.T(k, 'den', pre=' '))
         return out
 
-    def head(self, d, literal_only=False):
+    def head(self, d, literal_only=False, has_body=True):
         a, agg = self.args(d, head=not literal_only, literal_only=literal_only)
         out = [None, self.T('(', 'open', glue=True)] + a + [self.T(')', 'close')]
         k = self.r.randrange(10)
@@ -732,7 +756,7 @@ class Gen(object):
             self.feat('head_aggregation')
             out += [self.T(self.pick(AGG_ASSIGN), 'aggop', pre=' ')] + \
                 self.sp([('E', self.expr(d + 1, noeq=True))])
-        out += self.denotations(agg)
+        out += self.denotations(agg, has_body)
         # several rules for one predicate must agree on `distinct` and on the aggregation
         # signature: a predicate is reused only if neither definition is distinct
         dist = any(isinstance(t, Tok) and (t.text == 'distinct' or t.kind == 'aggop')
@@ -759,7 +783,7 @@ class Gen(object):
 
     def fact(self):
         self.feat('fact')
-        return self.head(1, literal_only=self.p(0.7))
+        return self.head(1, literal_only=self.p(0.7), has_body=False)
 
     def functor(self):
         self.feat('functor_application')
